@@ -214,7 +214,7 @@ pub fn c12() -> C12 {
         e2e: EngineProp {
             id: "C12",
             oracles: Oracles { mutate_ticks: true, ..Default::default() },
-            profiles: vec![(Profile::Tracked, 30000, 600_000), (Profile::Wrap, 15000, 400_000)],
+            profiles: vec![(Profile::Tracked, 30000, 600_000), (Profile::Wrap, 15000, 400_000), (Profile::Sessions, 30000, 600_000)],
             nontrivial: |s: &Sim| s.flags.contains("mut_dropped") || s.flags.contains("mut_reordered"),
             rule: "",
             assumptions: vec![],
